@@ -132,13 +132,18 @@ void h_count(void) { S_* s; GetRandCount(s); VF_CANARY("end"); }
     out.append(Job('fault/SetSeed', props, fsrc, 'h_seed', enforce='SetSeed', funcs=[B['SetSeed']], expect=[r'postcondition'], meta={'fn': 'SetSeed'}))
     out.append(Job('fault/GetRandCount', props, fsrc, 'h_count', enforce='GetRandCount', funcs=[B['GetRandCount']], expect=[r'postcondition'], meta={'fn': 'GetRandCount'}))
     # ForwardToRandCount: restore lemma, unbounded n
-    c = C['ForwardToRandCount']
-    c = re.sub(r'GetRandNumber\(\s*1\s*\)', 'GetRandNumberS(S, 1)', c)
-    # std::mt19937_64::discard(n) advances the engine by n draws (and nothing else)
-    c = re.sub(r'\beng\.discard\(\s*([^;]+?)\s*\)\s*;', r'ENG_DISCARD(S, \1);', c)
-    if re.search(r'\b(for|while)\b', c):
-        c = attach_loop_contracts('ForwardToRandCount', c, ['__CPROVER_assigns(i, S->eng_pos, S->sRandCount)\n__CPROVER_loop_invariant(i <= random_count && SINV(S) && S->eng_pos == g_pos0 + i)'])
-    src = state + '''#define SINV(S) %s
+    def forward():
+        c = C['ForwardToRandCount']
+        c = re.sub(r'GetRandNumber\(\s*1\s*\)', 'GetRandNumberS(S, 1)', c)
+        # std::mt19937_64::discard(n) advances the engine by n draws (and nothing else)
+        c = re.sub(r'\beng\.discard\(\s*([^;]+?)\s*\)\s*;', r'ENG_DISCARD(S, \1);', c)
+        if re.search(r'\b(for|while)\b', c):
+            mv = re.search(r'\b(\w+)\s*(?:!=|<)\s*random_count\b', c)      # the loop counter, whatever it is called
+            if not mv:
+                raise ExtractionBreak('ForwardToRandCount: cannot find the counter the loop compares with random_count')
+            iv = mv.group(1)
+            c = attach_loop_contracts('ForwardToRandCount', c, ['__CPROVER_assigns(%s, S->eng_pos, S->sRandCount)\n__CPROVER_loop_invariant(%s <= random_count && SINV(S) && S->eng_pos == g_pos0 + %s)' % (iv, iv, iv)])
+        src = state + '''#define SINV(S) %s
 uint64_t g_pos0;
 uint64_t GetRandNumberS(S_* S, uint64_t max) __CPROVER_requires(SINV(S) && max != 0) __CPROVER_assigns(S->eng_pos, S->sRandCount) __CPROVER_ensures(SINV(S) && S->eng_pos == OLD(S->eng_pos) + 1);
 void ForwardToRandCount(S_* S, uint64_t random_count)
@@ -149,9 +154,13 @@ __CPROVER_ensures(SINV(S) && S->eng_pos == random_count && S->sRandCount == rand
 {%s}
 void harness(void) { S_* s; g_pos0 = 0; ForwardToRandCount(s, nondet_ulong()); VF_CANARY("end"); }
 ''' % (INVS, c)
-    has_loop = bool(re.search(r'\b(for|while)\b', c))
-    out.append(Job('fault/ForwardToRandCount', props, src, 'harness', enforce='ForwardToRandCount', replace=['GetRandNumberS'], loop_contracts=has_loop, funcs=[B['ForwardToRandCount']],
-                   expect=[r'postcondition'] + ([r'invariant after step|loop_invariant_step'] if has_loop else []), meta={'fn': 'ForwardToRandCount'}))
+        has_loop = bool(re.search(r'\b(for|while)\b', c))
+        out.append(Job('fault/ForwardToRandCount', props, src, 'harness', enforce='ForwardToRandCount', replace=['GetRandNumberS'], loop_contracts=has_loop, funcs=[B['ForwardToRandCount']],
+                       expect=[r'postcondition'] + ([r'invariant after step|loop_invariant_step'] if has_loop else []), meta={'fn': 'ForwardToRandCount'}))
+    try:
+        forward()
+    except ExtractionBreak as e:      # this function outside the recipe leaves the other functions of the unit decided
+        ctx.breaks.append(str(e))
     # Injector state accessors: SetState(GetState()) restores the injector part of S
     src = state + '''uint32_t GetState(S_* S) __CPROVER_requires(__CPROVER_is_fresh(S, sizeof(*S))) __CPROVER_assigns() __CPROVER_ensures(RET == S->_count)
 { S_* self = S; %s }
